@@ -341,7 +341,7 @@ def check_c21(tier):
     results, failures, samples, invalid = [], [], [], []
 
     def work(seed):
-        w = P.gen_workload("c20", seed, "quick")  # C03 fragment without eqrel; every IDB relation is an output
+        w = P.gen_workload("c21", seed, "quick")  # C03 fragment without eqrel; every IDB relation is an output
         w.wid = "c21:%d" % seed
         w.materialise()
         ap = ApiProgram(w, exe)
